@@ -23,9 +23,12 @@
 (* failed[n]= Peer.failedPeers of n: whom n tries to reconnect to.          *)
 (*                                                                         *)
 (* Small updates: bcast.QueueBroadcast; at every gossip tick memberlist     *)
-(* takes min(Fanout, |G|) distinct nodes of G = mem \cup ghost in random    *)
-(* order and calls GetBroadcasts once per node; a message leaves the queue  *)
-(* after TxLimit transmissions (who received them does not matter).         *)
+(* draws UP TO min(Fanout, |G|) distinct nodes of G = mem \cup ghost        *)
+(* (kRandomNodes: 3n random probes with rejection - it may come up short)   *)
+(* and calls GetBroadcasts once per node drawn; a message leaves the queue  *)
+(* after TxLimit transmissions (who received them does not matter).  So the *)
+(* gossip path alone promises a given peer nothing when a draw did not      *)
+(* serve every target: the periodic push/pull is the safety net.            *)
 (* Oversized updates: the Channel worker asks peers() when it takes the     *)
 (* message and sends it to each of them over the reliable channel.          *)
 (*   SendList = "current": the code - the list is Members() at that time.   *)
@@ -60,7 +63,8 @@ VARIABLES life,    \* identity -> "new" | "up" | "left" | "crashed"
           net,     \* messages in flight: [u, to, kind]
           origin,  \* update -> identity that broadcast it ("-": not yet)
           cohort,  \* update -> the peers that were connected to the origin at the broadcast and stayed so
-          wide,    \* small updates that were queued while their origin had more than Fanout gossip targets
+          wide,    \* small updates that were queued during a gossip tick of their origin that did not serve every
+                   \* gossip target (more than Fanout targets, or the random draw came up short)
           ready,   \* identity -> readyc closed
           settle,  \* identity -> [phase, okay, npeers, polls, budget]
           used,    \* budgets [stop, join]
@@ -128,14 +132,14 @@ Orders(S, k) == {q \in [1 .. k -> S] : \A i, j \in 1 .. k : i # j => q[i] # q[j]
 
 Tick(s, q) ==
   /\ life[s] = "up" /\ DOMAIN gq[s] # {} /\ G(s) # {}
-  /\ q \in Orders(G(s), Min(Fanout, Cardinality(G(s))))
+  /\ Len(q) \in 1 .. Min(Fanout, Cardinality(G(s))) /\ q \in Orders(G(s), Len(q))
   /\ LET k == Len(q)
          sendsOf(u) == {q[i] : i \in 1 .. Min(k, TxLimit - gq[s][u])}
          after == [u \in DOMAIN gq[s] |-> gq[s][u] + Min(k, TxLimit - gq[s][u])]
          keep == {u \in DOMAIN gq[s] : after[u] < TxLimit}
      IN /\ net' = net \cup UNION {{[u |-> u, to |-> p, kind |-> "udp"] : p \in {x \in sendsOf(u) : life[x] = "up"}} : u \in DOMAIN gq[s]}
         /\ gq' = [gq EXCEPT ![s] = [u \in keep |-> after[u]]]
-        /\ wide' = IF Cardinality(G(s)) > Fanout THEN wide \cup DOMAIN gq[s] ELSE wide
+        /\ wide' = IF {q[i] : i \in 1 .. k} # G(s) THEN wide \cup DOMAIN gq[s] ELSE wide
         /\ last' = [op |-> "tick", n |-> s, order |-> q]
   /\ UNCHANGED <<life, mem, ghost, failed, cache, st, origin, cohort, ready, settle, used>>
 
@@ -213,8 +217,8 @@ Restart(n, b) ==
 
 Reconnect(m, n) ==
   /\ life[m] = "up" /\ life[n] = "up" /\ n \in failed[m]
-  /\ mem' = [mem EXCEPT ![m] = @ \cup {n}, ![n] = (@ \cup mem[m] \cup {m}) \ {n}]
-  /\ ghost' = [ghost EXCEPT ![m] = @ \ {n}]
+  /\ mem' = [mem EXCEPT ![m] = @ \cup {n}, ![n] = (@ \cup (mem[m] \ ghost[n]) \cup {m}) \ {n}]   \* an alive claim does not revive a peer n holds as dead
+  /\ ghost' = [ghost EXCEPT ![m] = @ \ {n}, ![n] = @ \ {m}]
   /\ failed' = [failed EXCEPT ![m] = @ \ {n}]
   /\ st' = [st EXCEPT ![m] = @ \cup st[n], ![n] = @ \cup st[m]]
   /\ last' = [op |-> "reconnect", m |-> m, n |-> n, had |-> st[m]]
@@ -258,13 +262,14 @@ Quiet == /\ net = {}
          /\ \A s \in Up : DOMAIN gq[s] = {} \/ G(s) = {}
 
 \* C19: every update broadcast by an instance is merged by every instance that
-\* stays connected to it.  Oversized: always.  Small: unless the origin had more
-\* gossip targets than one tick serves (memberlist retires the message after
-\* TxLimit transmissions whoever received them; the periodic push/pull repairs it).
+\* stays connected to it.  Oversized: always.  Small: unless a gossip tick of the
+\* origin left a target out while the update was queued (memberlist retires the
+\* message after TxLimit transmissions whoever received them; the periodic
+\* push/pull repairs it).
 Delivered ==
   Quiet => \A u \in Updates : \A p \in cohort[u] : Has(p, u) \/ (u \in Small /\ u \in wide)
 
-\* the guarantee without the excuse (expected to fail with 4 or more gossip targets)
+\* the guarantee without the excuse (expected to fail)
 DeliveredStrict == Quiet => \A u \in Updates : \A p \in cohort[u] : Has(p, u)
 
 \* a joining or re-joining instance obtains the complete current state
